@@ -91,6 +91,7 @@ pub fn run_c15(cfg: &Cfg) -> i32 {
         let mut r = cfg.prng("C15", idx);
         let k_good = r.range(1, 4);
         let mut database = crate::c04::simple_db(k_good);
+        let sunk_as = 65000 + k_good as u32;
         database.as_sets.insert("AS-FAILING".into(), vec![irrfake::db::AsSetMember::As(65000)]);
         // which unevaluable kinds: every kind alone first, then combinations
         // ... each kind once with the unevaluable policy already installed, once not installed yet
@@ -119,6 +120,7 @@ pub fn run_c15(cfg: &Cfg) -> i32 {
             let e = if shared { format!("FLTR-SHARED AND ({})", b.expr) } else { b.expr.clone() };
             managed.push((b.name.clone(), e));
         }
+        managed.push(("partly-answered".to_string(), format!("AS{sunk_as}")));
         rep.count(if shared { "cases_sharing_a_filter_set_between_good_and_unevaluable" } else { "cases_without_shared_names" });
         // the agent iterates a HashMap: vary the names' order/hash by a per-case prefix
         let prefix = format!("p{}-", r.below(1000));
@@ -127,7 +129,13 @@ pub fn run_c15(cfg: &Cfg) -> i32 {
         }
         r.shuffle(&mut managed);
         let mut faults = Faults::default();
-        faults.by_query.insert("!iAS-FAILING,1".into(), Fault::Other("injected failure".into()));
+        faults.by_query.insert("!iAS-FAILING,1".into(), Fault::Other(crate::c11::long_message(&mut r, "injected failure")));
+        // one more managed policy whose route queries the IRR answers with an error: such errors
+        // are logged and skipped by the evaluator (the policy gets what could be obtained); the
+        // error text is the server's, of any length and in any language
+        database.ases.insert(sunk_as, irrfake::db::AsRoutes { v4: vec![(0xC633_6400, 24)], v6: vec![] });
+        faults.by_query.insert(format!("!gAS{sunk_as}"), Fault::Other(crate::c11::long_message(&mut r, "route query refused")));
+        faults.by_query.insert(format!("!6AS{sunk_as}"), Fault::Other(crate::c11::long_message(&mut r, "route query refused")));
         let irr = match Server::start(database.clone(), faults) {
             Ok(s) => s,
             Err(e) => {
@@ -602,9 +610,9 @@ pub fn run_c20_agent(cfg: &Cfg) -> i32 {
     let public: Vec<Vec<u8>> = crate::peers::PUBLIC_CERTS.iter().map(|c| secrets::pem_der(&std::fs::read(dir.join(c)).unwrap_or_default())).collect();
     let directives = ["", "trace", "debug", "netconf=trace", "bgpfu_junos_agent=trace,rustls=trace,tokio_rustls=trace", "info,netconf::transport=trace"];
     let outcomes = ["success", "untrusted-ca", "paths-swapped", "peer-drops", "cert-bundle-with-key", "ca-bundle-with-key", "key-file-with-trailing-copy", "unusable-key",
-        "key-file-on-one-line", "key-file-without-end-marker", "key-file-with-crlf-and-leading-text"];
+        "key-file-on-one-line", "key-file-without-end-marker", "key-file-with-crlf-and-leading-text", "key-file-with-latin1-leading-text", "key-file-with-byte-order-mark"];
     let keys = [("client.key", "client.crt"), ("client.sec1.key", "client.crt"), ("client-rsa.key", "client-rsa.crt"), ("client-rsa.pkcs1.key", "client-rsa.crt")];
-    let n = cfg.count(77, 770);
+    let n = cfg.count(91, 910);
     for i in 0..n {
         let idx = cfg.case_index(i);
         let mut r = cfg.prng("C20-agent", idx);
@@ -633,10 +641,22 @@ pub fn run_c20_agent(cfg: &Cfg) -> i32 {
         // damaged / reformatted key files (what an editor, a copy-and-paste or a truncated copy leave)
         let rewrite = |f: &str, how: &str| -> String {
             let text = String::from_utf8_lossy(&std::fs::read(dir.join(f)).unwrap_or_default()).into_owned();
-            let out = match how {
-                "one-line" => text.lines().collect::<Vec<_>>().join(" "),
-                "no-end" => text.lines().filter(|l| !l.starts_with("-----END")).collect::<Vec<_>>().join("\n"),
-                _ => format!("Bag Attributes\r\n    friendlyName: vh\r\n{}", text.replace('\n', "\r\n")),
+            let out: Vec<u8> = match how {
+                "one-line" => text.lines().collect::<Vec<_>>().join(" ").into_bytes(),
+                "no-end" => text.lines().filter(|l| !l.starts_with("-----END")).collect::<Vec<_>>().join("\n").into_bytes(),
+                // what `openssl pkcs12 -nodes` writes in front of the key, with a friendlyName in
+                // an 8-bit code page (not UTF-8), or with a byte-order mark from an editor
+                "latin1" => {
+                    let mut v = b"Bag Attributes\n    friendlyName: Z\xFCrich core\nKey Attributes: <No Attributes>\n".to_vec();
+                    v.extend_from_slice(text.as_bytes());
+                    v
+                }
+                "bom" => {
+                    let mut v = b"\xEF\xBB\xBF".to_vec();
+                    v.extend_from_slice(text.as_bytes());
+                    v
+                }
+                _ => format!("Bag Attributes\r\n    friendlyName: vh\r\n{}", text.replace('\n', "\r\n")).into_bytes(),
             };
             let _ = std::fs::write(&bundle, out);
             bundle.to_string_lossy().into_owned()
@@ -645,6 +665,8 @@ pub fn run_c20_agent(cfg: &Cfg) -> i32 {
             "key-file-on-one-line" => (e2e::pki("ca.crt"), e2e::pki(cert), rewrite(key, "one-line")),
             "key-file-without-end-marker" => (e2e::pki("ca.crt"), e2e::pki(cert), rewrite(key, "no-end")),
             "key-file-with-crlf-and-leading-text" => (e2e::pki("ca.crt"), e2e::pki(cert), rewrite(key, "crlf")),
+            "key-file-with-latin1-leading-text" => (e2e::pki("ca.crt"), e2e::pki(cert), rewrite(key, "latin1")),
+            "key-file-with-byte-order-mark" => (e2e::pki("ca.crt"), e2e::pki(cert), rewrite(key, "bom")),
             "cert-bundle-with-key" => (e2e::pki("ca.crt"), cat(&[cert, key]), e2e::pki(key)),
             "ca-bundle-with-key" => (cat(&["ca.crt", key]), e2e::pki(cert), e2e::pki(key)),
             "key-file-with-trailing-copy" => (e2e::pki("ca.crt"), e2e::pki(cert), cat(&[key, key])),
@@ -692,6 +714,24 @@ pub fn run_c20_agent(cfg: &Cfg) -> i32 {
         rep.count_n("log_lines_searched", text.iter().filter(|b| **b == b'\n').count() as u64);
         let der = secrets::pem_der(&std::fs::read(dir.join(key)).unwrap_or_default());
         let mut found = false;
+        // the key file is text: its base64 body, rendered once more as a byte list or in hex (a
+        // Debug-printed buffer of the file), gives the key away just the same. The first 64
+        // characters encode the public ASN.1 header and are left out.
+        let body = secrets::pem_body(&std::fs::read(dir.join(key)).unwrap_or_default());
+        if body.len() > 64 + 24 {
+            for h in secrets::search(&text, &body.as_bytes()[64..]) {
+                if h.encoding == "clear" || h.encoding.starts_with("base64") {
+                    continue; // the body in clear is found as base64 of the DER below
+                }
+                found = true;
+                let line = secrets::line_at(&text, h.offset);
+                rep.violation(
+                    &format!("agent:{outcome}:tls-client-key:pem-text-as-{}", h.encoding.split('(').next().unwrap_or("?")),
+                    &format!("the PEM text of the TLS client key appears in the agent's output re-encoded ({})", h.encoding),
+                    json!({"outcome": outcome, "verbosity": verbosity, "RUST_LOG": directive, "to_file": to_file, "key": key, "line": clip(&line, 500), "window": h.window, "exit": out.status.code()}),
+                );
+            }
+        }
         for (k, seg) in secrets::sensitive_segments(&der, &public).into_iter().enumerate() {
             for h in secrets::search(&text, &seg) {
                 found = true;
@@ -738,11 +778,11 @@ struct DaemonObs {
 struct DaemonOpts {
     /// TOKIO_WORKER_THREADS for the agent (a single-core routing engine)
     workers: Option<u32>,
-    /// Some(release): the first run fails early (its installed-policies fetch is refused) while the
-    /// reply to its candidates fetch arrives late, so that its evaluation task outlives it; the
-    /// IRRd accepts that task's connection and stays silent until `release` (virtual seconds),
-    /// then answers everything it was asked. Later connections are served normally.
-    leftover_evaluation_on_silent_irr: Option<f64>,
+    /// Some((n, release)): the first n runs fail early (the installed-policies fetch is refused)
+    /// while the reply to the candidates fetch arrives late, so that each run's evaluation task
+    /// outlives it; the IRRd accepts those tasks' connections and stays silent until `release`
+    /// (virtual seconds), then answers everything it was asked. Later connections are served normally.
+    leftover_evaluation_on_silent_irr: Option<(usize, f64)>,
 }
 
 fn run_daemon(k: f64, period: u64, outcomes: &[bool], signals: &[(f64, i32)], end_at: f64, slow: &[(usize, f64)], opts: &DaemonOpts) -> Result<DaemonObs, String> {
@@ -757,10 +797,13 @@ fn run_daemon(k: f64, period: u64, outcomes: &[bool], signals: &[(f64, i32)], en
     let slow_commit: Vec<(usize, u64)> = slow.iter().map(|(c, virt_s)| (*c, (virt_s / k * 1000.0) as u64)).collect();
     let mut script = Script { running: e2e::running_config(&[("fltr-0".to_string(), "AS65000".to_string())]), faults: vec![], fail_connections: vec![], ephemeral_name: "bgpfu".into(), chunk: 0, slow_commit, faults_only_session: None, late_ms: 0 };
     if opts.leftover_evaluation_on_silent_irr.is_some() {
-        // session 0 fails through its second get-config, not by being dropped at the hello
-        fail[0] = false;
+        // these sessions fail through their second get-config, not by being dropped at the hello
+        let nleft = opts.leftover_evaluation_on_silent_irr.map_or(0, |x| x.0);
+        for f in fail.iter_mut().take(nleft) {
+            *f = false;
+        }
         script.faults = vec![("get-config".into(), 0, e2e::FaultKind::HoldOk), ("get-config".into(), 1, e2e::FaultKind::RpcError)];
-        script.faults_only_session = Some(0);
+        script.faults_only_session = Some(nleft);
         script.late_ms = 40;
     } else {
         script.running = e2e::running_config(&[]);
@@ -775,7 +818,7 @@ fn run_daemon(k: f64, period: u64, outcomes: &[bool], signals: &[(f64, i32)], en
         let t_front = Instant::now();
         let mut irr_port = irr_real_port;
         let silent_conns = std::sync::Arc::new(std::sync::atomic::AtomicUsize::new(0));
-        if let Some(release) = silent_release {
+        if let Some((nsilent, release)) = silent_release {
             let lst = tokio::net::TcpListener::bind(("127.0.0.1", 0)).await.map_err(|e| format!("irr front: {e}"))?;
             irr_port = lst.local_addr().map_err(|e| format!("{e}"))?.port();
             let sc = silent_conns.clone();
@@ -786,7 +829,7 @@ fn run_daemon(k: f64, period: u64, outcomes: &[bool], signals: &[(f64, i32)], en
                 loop {
                     let Ok((mut c, _)) = lst.accept().await else { return };
                     n += 1;
-                    if n == 1 {
+                    if n <= nsilent {
                         sc.fetch_add(1, std::sync::atomic::Ordering::SeqCst);
                         let shared = shared.clone();
                         tokio::spawn(async move {
@@ -937,7 +980,12 @@ pub fn run_c19(cfg: &Cfg) -> i32 {
         // talk to an IRRd that does not answer: the waiting daemon must stay responsive
         Sc { period: 300, outcomes: vec![false, true], signals: vec![(20.0, libc::SIGHUP), (100.0, libc::SIGTERM)], end: 220.0,
             name: "p300:one-worker-thread:F(evaluation left behind on a silent IRRd until 40s)+SIGHUP@20+S+SIGTERM@100", slow: vec![],
-            opts: DaemonOpts { workers: Some(1), leftover_evaluation_on_silent_irr: Some(40.0) } },
+            opts: DaemonOpts { workers: Some(1), leftover_evaluation_on_silent_irr: Some((1, 40.0)) } },
+        // several failed runs in a row, each leaving its evaluation blocked on the unresponsive
+        // IRRd: the retries must go on (blocked helpers must not exhaust anything the next run needs)
+        Sc { period: 300, outcomes: vec![false, false, false, false, false, false, true], signals: vec![], end: 60.0 + 120.0 + 240.0 + 300.0 + 300.0 + 300.0 + 120.0,
+            name: "p300:FFFFFF(each leaving its evaluation behind on a silent IRRd until 1250s)S", slow: vec![],
+            opts: DaemonOpts { workers: None, leftover_evaluation_on_silent_irr: Some((6, 1250.0)) } },
         Sc { period: 600, outcomes: vec![false, false, true], signals: vec![(60.0 + 50.0, libc::SIGHUP), (60.0 + 50.0 + 200.0, libc::SIGTERM)], end: 600.0, name: "p600:FF+SIGHUP@110(in 2nd backoff)S+SIGTERM@310(in period)", slow: vec![], opts: DaemonOpts::default() },
     ];
     if cfg.thorough() {
@@ -1008,11 +1056,11 @@ pub fn run_c19(cfg: &Cfg) -> i32 {
             continue;
         }
         if sc.opts.leftover_evaluation_on_silent_irr.is_some() {
-            if o.silent_irr_connections == 0 {
+            if o.silent_irr_connections < sc.opts.leftover_evaluation_on_silent_irr.map_or(0, |x| x.0).min(o.accepts.len()) {
                 rep.inconclusive(sc.name, "not exercised: no evaluation task was left behind (nothing connected to the silent IRRd)");
                 continue;
             }
-            rep.count("evaluation_tasks_left_behind_on_a_silent_irrd");
+            rep.count_n("evaluation_tasks_left_behind_on_a_silent_irrd", o.silent_irr_connections as u64);
         }
         let tol = |x: f64| (x * 0.05).max(5.0);
         let wit = |extra: Value| json!({"scenario": sc.name, "period": sc.period, "K": k, "accepts_virtual_s": o.accepts.iter().map(|a| (a * 10.0).round() / 10.0).collect::<Vec<_>>(), "session_ends_virtual_s": o.closes.iter().map(|c| c.map(|a| (a * 10.0).round() / 10.0)).collect::<Vec<_>>(), "logged_delays": o.logged_delays,
